@@ -89,6 +89,59 @@ nd::harnesses! {
     #[kani::unwind(7)] fn c15_collect_vec_4() { feed_collect::<4>(0) }
     #[kani::unwind(7)] fn c15_collect_extend_4() { feed_collect::<4>(1) }
 
+    /// The same callback fed TWICE: a stop verdict ends one feed, not the callback - the next feed invokes
+    /// the closure again, per item.
+    #[kani::unwind(6)]
+    fn c15_feed_twice_same_callback() {
+        let a: [u8; 3] = nd::any();
+        let b: [u8; 3] = nd::any();
+        let na = nd::range(0, 3);
+        let nb = nd::range(0, 3);
+        let stop_val: u8 = nd::any();
+        let mut seen = [0u8; 6];
+        let mut cnt = 0usize;
+        let (r1, r2) = {
+            let mut f = |v: u8| {
+                seen[cnt] = v;
+                cnt += 1;
+                v != stop_val
+            };
+            let mut cb: OpaqueCallback<u8> = (&mut f).into();
+            let r1 = a[..na].iter().copied().feed_into_mut(&mut cb);
+            let r2 = b[..nb].iter().copied().feed_into_mut(&mut cb);
+            (r1, r2)
+        };
+        // reference: offered = up to and including the first item equal to stop_val
+        let mut e1 = 0;
+        while e1 < na { e1 += 1; if a[e1 - 1] == stop_val { break; } }
+        let mut e2 = 0;
+        while e2 < nb { e2 += 1; if b[e2 - 1] == stop_val { break; } }
+        nd::cover!(e1 < na && e2 > 0, "first feed stopped early, second feed still delivers");
+        assert!(r1 == e1 && r2 == e2, "each feed reports what it offered");
+        assert!(cnt == e1 + e2, "the closure is invoked for every offered item of BOTH feeds");
+        let mut j = 0;
+        while j < e1 { assert!(seen[j] == a[j]); j += 1; }
+        let mut j = 0;
+        while j < e2 { assert!(seen[e1 + j] == b[j]); j += 1; }
+    }
+
+    /// A collecting Vec sink takes EVERY offered item, also beyond its current capacity.
+    #[kani::unwind(6)]
+    fn c15_collect_vec_beyond_capacity() {
+        let items: [u8; 3] = nd::any();
+        let n = nd::range(0, 3);
+        let cap = nd::range(0, 1);
+        nd::cover!(n > cap + 1, "more items than spare capacity");
+        let mut v: Vec<u8> = Vec::with_capacity(cap);
+        let ret = {
+            let cb: OpaqueCallback<u8> = (&mut v).into();
+            items[..n].iter().copied().feed_into(cb)
+        };
+        assert!(ret == n && v.len() == n, "every item collected");
+        let mut j = 0;
+        while j < n { assert!(v[j] == items[j]); j += 1; }
+    }
+
     /// Direct `call` (both the inherent method and the Callbackable trait) forwards the argument
     /// and the closure's verdict.
     fn c15_call_forwards() {
